@@ -418,6 +418,9 @@ class World:
             return NotImplemented
         r = sx._binop(op, va, vb, node)
         r = norm(r) if isinstance(r, (T, Fraction, int)) and not isinstance(r, bool) else r
+        if getattr(sx, "inplace", False) and isinstance(a, Obj) and a.attrs.get("$kind") == "expr":
+            a.attrs["$value"] = r       # Expr.__iadd__ & co. work in place and return self
+            return a
         owner = a if isinstance(a, Obj) and "$value" in a.attrs else b
         return self.wrap_like(owner, r)
 
